@@ -89,14 +89,14 @@ def run_shard(ctx):
                 judge_listing(ctx, ws, fh.read(), "fixture:" + os.path.basename(f))
             ctx.event("fixtures")
     from jv import asmgen
-    for _ in range(ctx.share(16, 400)):
+    for _ in range(ctx.share(16, 1200)):
         bits = ctx.rng.choice([64, 32])
         r = asmgen.assemble(ws, [asmgen.template(ctx.rng, bits) for _ in range(150)], bits)
         if r is None:
             ctx.inconc("as refused a template batch")
         else:
             judge_listing(ctx, ws, r[1], f"as{bits}")
-    n = ctx.share(160, 6000)
+    n = ctx.share(160, 15000)
     for k in range(n):
         blob, secs, bits = objd.random_object(ctx.rng, size=(300, 3000) if ctx.tier == "quick" else (300, 6000))
         op = ws.write("o.bin", blob)
